@@ -92,8 +92,11 @@ def run(ctx):
         ctx.check("no-capturing-prefix", f"{GF}:Globster.pattern_info[{const_value(k)!r}]", isinstance(pref, str) and groups_in_regex(pref) == 0, f"prefix {pref!r} has no capturing group", construct=str(pref))
     ctx.check("pattern-kinds", f"{GF}:Globster.pattern_info", set(kinds) == {"extension", "basename", "fullpath"} and norm(kinds["extension"]["translator"]) == "_sub_extension" and norm(kinds["basename"]["translator"]) == "_sub_basename" and norm(kinds["fullpath"]["translator"]) == "_sub_fullpath", "three pattern kinds with their translators")
     # _add_patterns
+    from ..astutil import bind_roles, canonicalise
+
     fa = repo.func(GF, "Globster._add_patterns")
     wa = f"{GF}:Globster._add_patterns"
+    fa = canonicalise(fa, bind_roles(fa, {"grouped_rules": ("assign", lambda t, n: isinstance(n, ast.ListComp) and "translator(" in t), "pat": ("for", "~patterns\\[:\\d+\\]")}, wa))
     src = norm(fa)
     fstrs = [n for n in walk_own(fa) if isinstance(n, ast.JoinedStr)]
     one_group = any(norm(n) == "f'({translator(pat)})'" for n in fstrs)
@@ -111,6 +114,10 @@ def run(ctx):
     ok = len(app) == 1 and isinstance(app[0].args[0], ast.Tuple) and norm(app[0].args[0].elts[1]).startswith("patterns[:")
     ctx.check("batch-constant", wa, ok, "the compiled batch is stored together with the slice it was built from")
     fm = repo.func(GF, "Globster.match")
+    fm = canonicalise(fm, bind_roles(fm, {"match": ("assign", "~\\w+\\.match\\(filename\\)")}, f"{GF}:Globster.match"))
+    _mt = [n for n in walk_own(fm) if isinstance(n, ast.For) and norm(n.iter) == "self._regex_patterns" and isinstance(n.target, ast.Tuple) and len(n.target.elts) == 2 and any(isinstance(r, ast.Return) for r in ast.walk(n))]
+    if len(_mt) == 1:
+        fm = canonicalise(fm, {"regex": norm(_mt[0].target.elts[0]), "patterns": norm(_mt[0].target.elts[1])})
     ctx.check("match-index", f"{GF}:Globster.match", any(norm(r.value) == "patterns[match.lastindex - 1]" for r in walk_own(fm) if isinstance(r, ast.Return)) and any(isinstance(n, ast.For) and norm(n.target) == "(regex, patterns)" and norm(n.iter) == "self._regex_patterns" for n in walk_own(fm)), "match() returns patterns[match.lastindex - 1] from the batch that matched")
     # identify
     fi = repo.func(GF, "Globster.identify")
@@ -122,6 +129,7 @@ def run(ctx):
     # ---- ExceptionGlobster ---------------------------------------------------------------
     fx = repo.func(GF, "ExceptionGlobster.__init__")
     wx = f"{GF}:ExceptionGlobster.__init__"
+    fx = canonicalise(fx, bind_roles(fx, {"ignores": ("assign", "[[], [], []]"), "p": ("for", "patterns")}, wx))
     chain = []
     for n in walk_own(fx):
         if isinstance(n, ast.If) and isinstance(n.test, ast.Call) and call_attr(n.test) == "startswith":
